@@ -84,10 +84,11 @@ CANDIDATES = {
     "network": ["testnet", "regtest", "mainnet"],
     "input_format": ["raw", "bin", "hex"],
     "output_format": ["raw", "bin", "hex"],
-    "rpc_url": ["http://node-a.example:8332", "http://node-b.example:18332", "http://node-c.example:18443", ""],
-    "rpc_user": ["alice", "bob", "carol", ""],
-    "rpc_password": ["pw-one", "pw-two", "pw-three", ""],
-    "rpc_datadir": ["/var/lib/btc-a", "/var/lib/btc-b", "/var/lib/btc-c", ""],
+    # free-form values are case-sensitive and may contain spaces: two candidates differ by letter case only
+    "rpc_url": ["http://node-a.example:8332/wallet/main", "http://node-a.example:8332/wallet/Main", "http://node-c.example:18443", ""],
+    "rpc_user": ["alice", "Alice", "carol b", ""],
+    "rpc_password": ["pw-one", "PW-One", "pw three", ""],
+    "rpc_datadir": ["/var/lib/btc-a", "/var/lib/BTC-a", "/var/lib/btc c", ""],
 }
 FLAGS = {
     "log_level": ("-L", "--log-level"),
